@@ -5,6 +5,7 @@ import functools
 import itertools
 import math
 import operator
+import os
 import pathlib
 import pickle
 import random
@@ -670,9 +671,13 @@ class DiskDict:
             if len(k) > 1:
                 # ensure subparent directories exist
                 fname.parent.mkdir(parents=True, exist_ok=True)
-            # write file!
-            with open(fname, "wb+") as f:
+            # write file! -> to a temporary file first, which is then moved
+            # into place atomically, so that a process dying mid-write can
+            # never leave a partially written entry behind
+            tmpname = fname.with_name(f".{fname.name}.{os.getpid()}.tmp")
+            with open(tmpname, "wb") as f:
                 pickle.dump(v, f)
+            os.replace(tmpname, fname)
 
     def __getitem__(self, k):
         try:
@@ -696,15 +701,16 @@ class DiskDict:
                     with open(fname, "rb") as f:
                         self._mem_cache[k] = v = pickle.load(f)
                         return v
-                except (EOFError, pickle.UnpicklingError) as e:
+                except (EOFError, pickle.UnpicklingError) as read_error:
                     # file was not written completely yet
                     # e.g. by another process
                     import time
 
+                    error = read_error
                     time.sleep(self.retry_delay)
 
             # file exists but there is some other error after retrying
-            raise e
+            raise error
 
 
 def get_rng(seed=None):
